@@ -331,25 +331,38 @@ func postCase(seed uint64, posters, m, q, keys int) string {
 	// let the consumer drain: wait until the queue is empty and input consumed
 	deadline := time.Now().Add(bound)
 	for time.Now().Before(deadline) {
-		s := vx.VerifC03Snapshot()
-		if s.QueueLen == 0 && fc.Pending() == 0 && (atomic.LoadInt64(&keysSeen) >= int64(keys) || q != 0) {
+		// len(Events()) does not take vx.mu (a stuck Render may hold it for ever)
+		if len(vx.Events()) == 0 && fc.Pending() == 0 && (atomic.LoadInt64(&keysSeen) >= int64(keys) || q != 0) {
 			time.Sleep(2 * time.Millisecond)
-			if vx.VerifC03Snapshot().QueueLen == 0 {
+			if len(vx.Events()) == 0 {
 				break
 			}
 		}
 		time.Sleep(200 * time.Microsecond)
 	}
 	atomic.StoreInt32(&drawing, 0)
-	mainMu.Lock()
+	renderOK := false
+	for dl := time.Now().Add(bound); time.Now().Before(dl); time.Sleep(time.Millisecond) {
+		if mainMu.TryLock() {
+			renderOK = true
+			break
+		}
+	}
 	closeOK, pmsg := withBound(vx.Close)
-	mainMu.Unlock()
+	if renderOK {
+		mainMu.Unlock()
+	} else {
+		pmsg = "Render did not return"
+	}
 	if closeOK && pmsg == "" {
 		// Close is idempotent: a second (sequential) call returns at once
 		closeOK, pmsg = withBound(vx.Close)
 	}
 	close(stop)
-	<-cdone
+	select {
+	case <-cdone:
+	case <-time.After(bound):
+	}
 	leak := waitGoroutines(base, time.Second)
 	var sb strings.Builder
 	fmt.Fprintf(&sb, "posters=%v close=%v panic=%q leak=%d plans=%s recv=%s", postersDone, closeOK, pmsg, leak, strings.Join(plans, ","), joinOr(recv))
@@ -455,7 +468,10 @@ func suspendCase(seed uint64, posters, m, cycles, q int) string {
 	pd, _ := withBound(wg.Wait)
 	closeOK, pmsg := withBound(vx.Close)
 	close(stop)
-	<-cdone
+	select {
+	case <-cdone:
+	case <-time.After(bound):
+	}
 	leak := waitGoroutines(base, time.Second)
 	out := fmt.Sprintf("%s posters=%v close=%v panic=%q leak=%d", res, pd, closeOK, pmsg, leak)
 	if leak > 0 {
@@ -536,7 +552,10 @@ func sigCloseCase(seed uint64, keys int) string {
 		res = "quit-hang"
 	}
 	close(stop)
-	<-cdone
+	select {
+	case <-cdone:
+	case <-time.After(bound):
+	}
 	leak := waitGoroutines(base, 500*time.Millisecond)
 	return fmt.Sprintf("%s leak=%d", res, leak)
 }
@@ -589,7 +608,10 @@ func dblCloseCase(seed uint64, n int) string {
 		}
 	}
 	close(stop)
-	<-cdone
+	select {
+	case <-cdone:
+	case <-time.After(bound):
+	}
 	leak := waitGoroutines(base, 500*time.Millisecond)
 	return fmt.Sprintf("close-%s leak=%d", res, leak)
 }
